@@ -680,6 +680,8 @@ func (v Value) Equals(b Value) bool {
 		return b.t == TypeString && v.value.(stringT) == b.value.(stringT)
 	case v.t.base() == TypeStruct, v.t == TypeFunc:
 		return (b.t == TypeNil && v.value == nil) || v.value == b.value
+	case v.t == TypeObject: // a host object equals itself (err == ErrNotFound), as an interface value holding a pointer does
+		return (b.t == TypeNil && v.value == nil) || (b.t == TypeObject && sameObject(v.value, b.value))
 	case v.t == TypeNil && b.t == TypeNil:
 		return true
 	case v.t == TypeNil: // nil == x is x == nil (also what "switch x { case nil:" compares)
@@ -693,6 +695,17 @@ func (v Value) Equals(b Value) bool {
 	}
 }
 func (v Value) opEq(b Value) Value { return Bool(v.Equals(b)) }
+
+// sameObject compares two host objects as Go compares interface values, except that objects of a type that cannot be
+// compared (a host's map or slice type) are unequal instead of a run-time panic
+func sameObject(a, b Object) (eq bool) {
+	defer func() {
+		if recover() != nil {
+			eq = false
+		}
+	}()
+	return a == b
+}
 
 func (v Value) convert(t Type) (res Value) {
 	if v.t == TypeNil && t >= nillableMin { // []T(nil), map[K]V(nil), (*T)(nil): the nil of that type
